@@ -343,7 +343,7 @@ def check(prog, run):
                        "the rebuilt schema fill in that member's own default", 1)
     ov = prog.get_func("py_gql.utilities.ast_node_from_value", "_object_value_node_from_value")
     run.looked_at(ov)
-    loops = [n for n in ov.node.body if isinstance(n, ast.For)]
+    loops = [n for n in own_nodes(ov.node) if isinstance(n, ast.For) and any(isinstance(x, ast.Attribute) and x.attr == "fields" for x in ast.walk(n.iter))]
     if len(loops) != 1:
         raise AnalysisError("C12.P9: per-member loop of _object_value_node_from_value not found")
     fake = ast.FunctionDef(name="_", args=ov.node.args, body=loops[0].body, decorator_list=[], returns=None, type_comment=None)
